@@ -23,7 +23,7 @@ for sid in sorted(os.listdir(V + "/seeded"), key=lambda s: (s.split("-")[0], int
         for k in v.get("violations", [])[:2]:
             parts = k.split("|")
             keys.append("%s %s" % (parts[0], parts[2] if len(parts) > 2 else ""))
-    det = "; ".join(dict.fromkeys(keys)) if m.get("detected") else "**not detected** (see 10.6)"
+    det = "; ".join(dict.fromkeys(keys)) if m.get("detected") else "**not detected** (see 10.6, 10.7)"
     rows.append("| %s | %s | %s | %s |" % (sid, m["property"], summ, det.replace("|", "/")[:160]))
 table = "| seed | property | change (author's summary) | detected by |\n|---|---|---|---|\n" + "\n".join(rows)
 p = V + "/DESIGN.md"
